@@ -108,8 +108,9 @@ def handle (ss : Session) (line : String) : Session × List String :=
           | "C03" => specC03 ss.st
           | "C04" => specC04 ss.st
           | "C08" => specC08 ss.st
+          | "C09" => specC09 ss.st
           | "ALL" => specC01 ss.st ++ specC02 ss.st ++ specC03 ss.st ++ specC04 ss.st ++ specC08 ss.st ++ specC10 ss.st ++
-                     [Fml.ge (.var .horizon) (numT 0)]
+                     specC09 ss.st ++ [Fml.ge (.var .horizon) (numT 0)]
           | _ => []
         (ss, ("(n " ++ toString fs.length ++ ")") :: fs.map (fun f => f.print))
     | _ =>
